@@ -133,7 +133,7 @@ def counted_loops(f, unit):
     for b in f.blocks.values():
         if not (b.term and b.term.get("k") == "ForStmt" and b.cond is not None):
             continue
-        cp = common.cmp_parts(b.cond)
+        cp = next((q for q in common.cmp_both(b.cond) if q[0] == "<"), None)
         if not cp or cp[0] != "<":
             continue
         j, s = strip_casts(cp[1]), strip_casts(cp[2])
@@ -209,30 +209,28 @@ class ValidBounds:
             return st
         add = set()
         for (c, truth) in flatten_fact(b.cond, lab):
-            cp = common.cmp_parts(c)
-            if not cp:
-                continue
-            op, l, r = cp
-            if not truth:
-                op = {"<": ">=", ">=": "<", ">": "<=", "<=": ">", "==": "!=", "!=": "=="}[op]
-            fl, fr = lin(l), lin(r)
-            if fl is not None and fr is not None and fr[0] == 0 and len(fr[1]) == 1 and fr[1][0] in SIZE_SYMS and CUR not in fl[1] and fl[1]:
-                if op == "<":
-                    add.add(form(fl[0] + 1, fl[1]))
-                elif op == "<=":
-                    add.add(fl)
-            ls, rs = strip_casts(strip_wrappers(l)), strip_casts(strip_wrappers(r))
-            if op == "==" and ls.get("k") == "mcall" and is_input(ls.get("obj")) and last(ls.get("callee", "")) == "compare" and len(ls.get("args", [])) == 3 and const_value(rs) == 0:
-                p, cnt, s = ls["args"]
-                fp = lin(p)
-                ssz = show(strip_casts(strip_wrappers(cnt)))
-                sname = strip_casts(strip_wrappers(s))
-                while sname.get("k") == "ctor" and sname.get("args"):
-                    sname = strip_casts(strip_wrappers(sname["args"][0]))
-                if fp is not None and ssz == show(sname) + ".size()":
-                    add.add(form(fp[0], list(fp[1]) + [ssz]))
-            if op == "!=" and ls.get("k") == "var" and ls["n"] in self.find_len and "npos" in show(rs):
-                add.add(form(self.find_len[ls["n"]], (ls["n"],)))
+            for cp in common.cmp_both(c):
+                op, l, r = cp
+                if not truth:
+                    op = {"<": ">=", ">=": "<", ">": "<=", "<=": ">", "==": "!=", "!=": "=="}[op]
+                fl, fr = lin(l), lin(r)
+                if fl is not None and fr is not None and fr[0] == 0 and len(fr[1]) == 1 and fr[1][0] in SIZE_SYMS and CUR not in fl[1] and fl[1]:
+                    if op == "<":
+                        add.add(form(fl[0] + 1, fl[1]))
+                    elif op == "<=":
+                        add.add(fl)
+                ls, rs = strip_casts(strip_wrappers(l)), strip_casts(strip_wrappers(r))
+                if op == "==" and ls.get("k") == "mcall" and is_input(ls.get("obj")) and last(ls.get("callee", "")) == "compare" and len(ls.get("args", [])) == 3 and const_value(rs) == 0:
+                    p, cnt, s = ls["args"]
+                    fp = lin(p)
+                    ssz = show(strip_casts(strip_wrappers(cnt)))
+                    sname = strip_casts(strip_wrappers(s))
+                    while sname.get("k") == "ctor" and sname.get("args"):
+                        sname = strip_casts(strip_wrappers(sname["args"][0]))
+                    if fp is not None and ssz == show(sname) + ".size()":
+                        add.add(form(fp[0], list(fp[1]) + [ssz]))
+                if op == "!=" and ls.get("k") == "var" and ls["n"] in self.find_len and "npos" in show(rs):
+                    add.add(form(self.find_len[ls["n"]], (ls["n"],)))
         return st | frozenset(add) if add else st
 
 
@@ -338,7 +336,7 @@ def cursor_program(ctx):
                 if g.name in inl:
                     return guard_ops(inl[g.name], t, CUR, SIZE_SYMS)
                 return [("atleast", prog.post_true[g] if t else prog.post_false[g])]
-            cp = common.cmp_parts(x)
+            cp = next((q for q in common.cmp_both(x) if is_cur(q[1])), None)
             if cp and is_cur(cp[1]):
                 op = cp[0] if t else {"<": ">=", ">=": "<", ">": "<=", "<=": ">", "==": "!=", "!=": "=="}[cp[0]]
                 fm = lin(cp[2])
@@ -743,7 +741,7 @@ def r3(ctx, r):
     nb = [b for b in name.blocks.values() if b.cond is not None and common.cmp_parts(b.cond) and "maxNameLength" in show(b.cond)]
     rets = [e for e in common.returns(name) if "substr" in show(e.node)]
     r.instance()
-    r.expect(len(nb) == 1 and rets and all(dominated_by_edge(name, e, nb[0], 1, eh=False) for e in rets) and common.cmp_parts(nb[0].cond)[0] in (">", ">="), name, rets[0] if rets else None, "name length limit",
+    r.expect(len(nb) == 1 and rets and all(dominated_by_edge(name, e, nb[0], 1, eh=False) for e in rets) and (common.cmp_oriented(nb[0].cond, lambda x: "maxNameLength" in show(x)) or ("?",))[0] in (">", ">="), name, rets[0] if rets else None, "name length limit",
              "readName returns a name without the maxNameLength test", okdesc="maxNameLength tested before a name is returned")
     # text span: advance in the loop behind the test
     tb = [b for b in text.blocks.values() if b.cond is not None and common.cmp_parts(b.cond) and "maxTextSpan" in show(b.cond)]
